@@ -14,6 +14,16 @@ type FaultFS struct {
 	FS   *FS
 	W    *kernel.World
 	Proc int
+	// Shared marks a handle used by several simulated processes (goroutines
+	// of one server): the calling process is then the one running now.
+	Shared bool
+}
+
+func (f *FaultFS) proc() int {
+	if f.Shared {
+		return f.W.Cur
+	}
+	return f.Proc
 }
 
 func errnoFor(arg int64) syscall.Errno {
@@ -32,12 +42,12 @@ func errnoFor(arg int64) syscall.Errno {
 // gate handles the non-data decisions common to all calls. It returns an
 // error to return instead of calling, and whether to crash after the call.
 func (f *FaultFS) gate(site, detail, path string) (error, bool) {
-	d := f.W.Seam(f.Proc, site, detail)
+	d := f.W.Seam(f.proc(), site, detail)
 	switch d.Kind {
 	case kernel.FErr, kernel.FErrPartial:
 		return &os.PathError{Op: site, Path: path, Err: errnoFor(d.Arg)}, false
 	case kernel.FCrashBefore, kernel.FTorn:
-		f.W.Crash(f.Proc, site)
+		f.W.Crash(f.proc(), site)
 	case kernel.FCrashAfter:
 		return nil, true
 	}
@@ -46,7 +56,7 @@ func (f *FaultFS) gate(site, detail, path string) (error, bool) {
 
 func (f *FaultFS) after(site string, crash bool) {
 	if crash {
-		f.W.Crash(f.Proc, site+" (after)")
+		f.W.Crash(f.proc(), site+" (after)")
 	}
 }
 
@@ -131,7 +141,7 @@ func (f *FaultFS) Link(oldpath, newpath string) error {
 
 // Copy implements Storage.
 func (f *FaultFS) Copy(src, dst string) error {
-	d := f.W.Seam(f.Proc, "fs.Copy", src+" -> "+dst)
+	d := f.W.Seam(f.proc(), "fs.Copy", src+" -> "+dst)
 	switch d.Kind {
 	case kernel.FErr:
 		return &os.PathError{Op: "copy", Path: dst, Err: errnoFor(d.Arg)}
@@ -140,10 +150,10 @@ func (f *FaultFS) Copy(src, dst string) error {
 		_ = f.FS.CopyN(src, dst, n)
 		return &os.PathError{Op: "copy", Path: dst, Err: syscall.ENOSPC}
 	case kernel.FCrashBefore:
-		f.W.Crash(f.Proc, "fs.Copy")
+		f.W.Crash(f.proc(), "fs.Copy")
 	case kernel.FTorn:
 		_ = f.FS.CopyN(src, dst, f.partLen(src, d.Arg))
-		f.W.Crash(f.Proc, "fs.Copy (torn)")
+		f.W.Crash(f.proc(), "fs.Copy (torn)")
 	}
 	err := f.FS.Copy(src, dst)
 	f.after("fs.Copy", d.Kind == kernel.FCrashAfter)
@@ -168,7 +178,7 @@ func (f *FaultFS) ReadFile(path string) ([]byte, error) {
 
 // WriteFile implements Storage.
 func (f *FaultFS) WriteFile(path string, data []byte, perm os.FileMode) error {
-	d := f.W.Seam(f.Proc, "fs.WriteFile", fmt.Sprintf("%s len=%d %o", path, len(data), perm))
+	d := f.W.Seam(f.proc(), "fs.WriteFile", fmt.Sprintf("%s len=%d %o", path, len(data), perm))
 	part := int(int64(len(data)) * (d.Arg % 1000) / 1000)
 	switch d.Kind {
 	case kernel.FErr:
@@ -177,10 +187,10 @@ func (f *FaultFS) WriteFile(path string, data []byte, perm os.FileMode) error {
 		_ = f.FS.WriteFileN(path, data, perm, part)
 		return &os.PathError{Op: "write", Path: path, Err: syscall.ENOSPC}
 	case kernel.FCrashBefore:
-		f.W.Crash(f.Proc, "fs.WriteFile")
+		f.W.Crash(f.proc(), "fs.WriteFile")
 	case kernel.FTorn:
 		_ = f.FS.WriteFileN(path, data, perm, part)
-		f.W.Crash(f.Proc, "fs.WriteFile (torn)")
+		f.W.Crash(f.proc(), "fs.WriteFile (torn)")
 	}
 	err := f.FS.WriteFile(path, data, perm)
 	f.after("fs.WriteFile", d.Kind == kernel.FCrashAfter)
